@@ -7,4 +7,7 @@ McInitStor == [c \in McContracts |-> [s \in McSlots |-> 0]]
 McInitStorB == [c \in McContracts |-> [s \in McSlots |-> IF c = "A" THEN 2 ELSE 0]]
 McKinds == {"call", "callcode", "delegatecall", "staticcall"}
 McKinds2 == {"call", "delegatecall", "staticcall"}
+McSlots2 == {"s1", "s2"}
+McInitStor2 == [c \in McContracts |-> [s \in McSlots2 |-> IF c = "A" /\ s = "s1" THEN 2 ELSE IF c = "B" /\ s = "s2" THEN 1 ELSE 0]]
+McCall == {"call"}
 ====
